@@ -76,6 +76,10 @@ func isUsedByGeneratedCode(input string) bool {
 	// receiver, variables and packages of the generated methods
 	case "builder", "resource", "cog", "err", "errs":
 		return true
+	// parameter, variables and packages of the generated decoders of unions: the
+	// variable that holds a branch is named after the type of that branch
+	case "raw", "json", "fmt", "errors", "parsedAsMap", "discriminator", "found":
+		return true
 	// predeclared identifiers
 	case "append", "cap", "copy", "delete", "len", "make", "new", "panic",
 		"nil", "true", "false", "any":
